@@ -9,7 +9,24 @@ c.arg('r', Scalar('real'))
 c.arg('g', Scalar('real'))
 c.arg('b', Scalar('real'))
 c.requires('unit-cube', '0 <= r <= 1 and 0 <= g <= 1 and 0 <= b <= 1')
+c.reveal('reveal_hsv(r, g, b)')
 c.ensures('v', 'result[2] == hsv_v(r, g, b)')
 c.ensures('s', 'result[1] == hsv_s(r, g, b)')
 c.ensures('h', 'result[0] == hsv_h(r, g, b)')
 c.ensures('ranges', '0 <= result[0] < 1 and 0 <= result[1] <= 1 and 0 <= result[2] <= 1')
+
+
+# hsv_to_rgb: the result is an rgb triple whose HSV is the argument ("the same colour"): value always,
+# saturation when v > 0, hue (as an angle, mod 1) when s > 0 and v > 0.
+c = contract('stdlib:colorsys', 'hsv_to_rgb', serves=['C07', 'C14'], name='colorsys.hsv_to_rgb', modular=True)
+c.returns(lambda I, env: (I.fresh('real', 'r'), I.fresh('real', 'g'), I.fresh('real', 'b')))
+c.arg('h', Scalar('real'))
+c.arg('s', Scalar('real'))
+c.arg('v', Scalar('real'))
+c.requires('unit-ranges', '0 <= h <= 1 and 0 <= s <= 1 and 0 <= v <= 1')
+c.reveal('reveal_hsv(result[0], result[1], result[2])')
+c.ensures('unit-cube', '0 <= result[0] <= 1 and 0 <= result[1] <= 1 and 0 <= result[2] <= 1')
+c.ensures('v', 'hsv_v(result[0], result[1], result[2]) == v')
+c.ensures('s', 'v > 0 ==> hsv_s(result[0], result[1], result[2]) == s')
+c.ensures('h', 'v > 0 and s > 0 ==> hsv_h(result[0], result[1], result[2]) == h - floor(h)')
+c.ensures('grey', 's == 0 ==> result[0] == v and result[1] == v and result[2] == v')
